@@ -50,7 +50,7 @@ func (f *V5SFS) MustRMAll(path string) {
 	if f.Hook {
 		sched.Point(sched.KFS, nil, "MustRMAll")
 	}
-	f.RM[path]++
+	sched.Own(func() { f.RM[path]++ })
 	f.FileSystem.MustRMAll(path)
 }
 
